@@ -743,6 +743,10 @@ func (c *walkSem) LoopBack(e *Engine, st *State, loop ast.Stmt) {
 			continue
 		}
 		st0 := c.structs[T]
+		if st0 == nil {
+			// the node type may implement Node by value (then *T and T both do)
+			st0 = c.structs[strings.TrimPrefix(T, "*")]
+		}
 		sT := StructOf(st0)
 		if sT == nil {
 			continue
